@@ -5,7 +5,7 @@
 Require Extraction.
 Require Import ExtrOcamlBasic.
 From Coq Require Import List NArith ZArith.
-From SDB Require Import Base.Bytes Base.Assoc Params Model.Codec Model.Lock Model.Page Model.Pool Model.SqlRef Model.Catalog Model.Query Model.Wal Model.LogCodec Model.WalTrace Model.Sched Model.ReqMgr Model.Engine Model.IndexWrap Model.Trace Model.Join Model.SkipList Model.Startup Model.HashTable Model.Heap Model.TupleCodec Model.CatalogRows Model.TmpPage Model.WalLink.
+From SDB Require Import Base.Bytes Base.Assoc Params Model.Codec Model.Lock Model.Page Model.Pool Model.SqlRef Model.Catalog Model.Query Model.Wal Model.LogCodec Model.WalTrace Model.Sched Model.ReqMgr Model.Engine Model.IndexWrap Model.Trace Model.Join Model.SkipList Model.Startup Model.HashTable Model.Heap Model.TupleCodec Model.CatalogRows Model.TmpPage Model.WalLink Model.PageAlloc.
 
 Extraction Blacklist List String Int.
 
@@ -61,4 +61,6 @@ Extraction "sdbmodel.ml"
   tp_init tp_init_page tp_free tp_set_free tp_page_id tp_insert_go tp_insert_weak_go tp_insert tp_get tp_get_go tp_insert_all tp_inserts tp_last_loc
   (* M6l page-link write-ahead discipline (C08) *)
   link_ok link_first_violation link_checked
+  (* M3a page-id allocation and reuse across restarts (C13, C10) *)
+  pa_init pa_step pa_client_ok pa_image_ok pa_inuse_nodup pa_new_fresh pa_reusable_ok pa_lset
   N.of_nat N.to_nat Z.of_N Z.to_N Z.compare N.compare.
